@@ -23,6 +23,7 @@ type schan struct {
 	cap    int
 	closed bool
 	id     int
+	taken  int
 }
 
 func makeChan(fr *frame, size int) value {
@@ -143,14 +144,3 @@ func doSelect(fr *frame, instr *ssa.Select) value {
 	return r
 }
 
-// scheduler is the simulated-thread scheduler (Mode B); defined in sched.go
-// once built.  The zero pointer selects Mode A.
-type scheduler struct{}
-
-func (s *scheduler) spawn(fr *frame, instr *ssa.Go, fn value, args []value) {
-	panic(engineErr("scheduler not built"))
-}
-func (s *scheduler) send(fr *frame, c *schan, v value)        { panic(engineErr("scheduler not built")) }
-func (s *scheduler) recv(fr *frame, c *schan) (value, bool)   { panic(engineErr("scheduler not built")) }
-func (s *scheduler) sel(fr *frame, instr *ssa.Select) value   { panic(engineErr("scheduler not built")) }
-func (s *scheduler) wake()                                    {}
